@@ -4,7 +4,7 @@
    measured by the correspondence check (N seeds against 4N seeds), not proved. *)
 From Coq Require Import Permutation ZArith.
 From ZenoV Require Import Tree.Item Stage.Pass Pipe.PipeLts Pipe.PipeProofs Pipe.PipeClosed Stage.Bodies.
-From ZenoV Require Rate.Manager Rate.ManagerProofs Warc.Retry Warc.RetryProofs.
+From ZenoV Require Rate.Manager Rate.ManagerProofs Warc.Retry Warc.RetryProofs Pipe.LogFile Pipe.LogFileProofs.
 
 (* After the queue drains - in any state in which nothing can move - the reactor tracks no seed,
    all tokens are free and nothing is in flight: for EVERY list of queue rows (any number of
@@ -51,3 +51,12 @@ Theorem C16_limiter_table_bounded : forall mx c r ls m gs,
   (Manager.tab_len (Manager.mg_tab m) <= Z.max mx 1)%Z.
 Proof. exact ManagerProofs.table_bounded_lemma. Qed.
 Print Assumptions C16_limiter_table_bounded.
+
+(* The rotated log file (--log-file-rotation) holds at most one descriptor after every sequence of
+   rotations, writes and closes, whatever their number (= however long the crawl lasts) - exactly one
+   as long as it has not been closed: rotateFile() closes the file it replaces *)
+Theorem C16_log_file_holds_one_descriptor : forall first ls,
+  (LogFile.open_count (LogFile.rrun LogFile.rotate first ls) <= 1)%N
+  /\ (LogFile.never_closed ls = true -> LogFile.open_count (LogFile.rrun LogFile.rotate first ls) = 1%N).
+Proof. exact LogFileProofs.log_file_one_descriptor_lemma. Qed.
+Print Assumptions C16_log_file_holds_one_descriptor.
